@@ -461,7 +461,7 @@ fn gen_global(rng: &mut Rng, tier: Tier, _n: usize) -> Vec<String> {
 //   OP ::= (init I F) | (tryinit I F) | (initguard I F T) | dropguard | (initint I F) | (tryinitint I F)
 //        | (emit E LM) | (span E LM) | (rtemit E LM) | (direct E LM) | (emitint E LM) | (flush T) | obs
 //   F  ::= all | none | (minlvl LEVEL) | (idge N)        LM ::= plain | debug | info | warn | error
-// Output: one token per op, then what every configuration's emitter received `(cfg id lvl amb)` and every flush
+// Output: one token per op, then what every configuration's emitter received `(cfg id lvl amb clocked|bare)` and every flush
 // it saw `(cfg timeout_ns)`. See lean/EmitModel/Driver/C20.lean.
 
 use emit::Level;
@@ -547,7 +547,7 @@ fn gop(s: &Sexp) -> Option<GOp> {
 }
 
 /// What a configuration's emitter saw: (cfg, event id, level text, the ambient `cfg` property).
-type GLog = Arc<Mutex<(Vec<(u64, i64, String, Option<u64>)>, Vec<(u64, u128)>)>>;
+type GLog = Arc<Mutex<(Vec<(u64, i64, String, Option<u64>, bool)>, Vec<(u64, u128)>)>>;
 
 /// Flushing succeeds when the timeout is at least this many nanoseconds (so the result depends on the argument).
 const FLUSH_NEEDS_NS: u128 = 500;
@@ -559,7 +559,10 @@ impl Emitter for GEmitter {
         let id = evt.props().pull::<i64, _>("id").unwrap_or(i64::MIN);
         let lvl = evt.props().pull::<Level, _>("lvl").map(|l| l.to_string()).unwrap_or_else(|| "none".into());
         let amb = evt.props().pull::<u64, _>("cfg");
-        self.1.lock().unwrap().0.push((self.0, id, lvl, amb));
+        // the events of this stream carry no extent of their own: one that arrives with an extent got it from
+        // the runtime's clock (a point for events, the timer's range for spans)
+        let clocked = evt.extent().is_some();
+        self.1.lock().unwrap().0.push((self.0, id, lvl, amb, clocked));
     }
     fn blocking_flush(&self, timeout: Duration) -> bool {
         self.1.lock().unwrap().1.push((self.0, timeout.as_nanos()));
@@ -824,7 +827,10 @@ fn run_gseq(plan: Vec<GOp>) -> String {
     let recv: Vec<String> = l
         .0
         .iter()
-        .map(|(c, id, lvl, amb)| format!("({} {} {} {})", c, id, lvl, amb.map(|a| a.to_string()).unwrap_or("none".into())))
+        .map(|(c, id, lvl, amb, clocked)| {
+            let amb = amb.map(|a| a.to_string()).unwrap_or("none".into());
+            format!("({} {} {} {} {})", c, id, lvl, amb, if *clocked { "clocked" } else { "bare" })
+        })
         .collect();
     let fl: Vec<String> = l.1.iter().map(|(c, t)| format!("({} {})", c, t)).collect();
     let out = format!("{} recv=({}) flushes=({})", outs.join(" "), recv.join(" "), fl.join(" "));
